@@ -5,7 +5,7 @@
 set -u
 lane="$1"; shift
 L=/tmp/mut/lane$lane
-mkdir -p /tmp/mut/results
+RES=${RESULTS:-/tmp/mut/results}; mkdir -p $RES
 if [ ! -d "$L/repo" ]; then git -C /repo worktree add -q --detach "$L/repo" HEAD || exit 2; fi
 git -C "$L/repo" checkout -q --detach "$(git -C /repo rev-parse HEAD)"; git -C "$L/repo" checkout -q -- .
 mkdir -p "$L/verif"
@@ -13,8 +13,8 @@ rsync -a --delete --exclude target --exclude out --exclude evidence --exclude .g
 sed -i "s#path = \"/repo\"#path = \"$L/repo\"#" "$L/verif/sim/Cargo.toml"
 ALL="C01 C02 C03 C04 C05 C06 C07 C08 C09 C10 C11 C12 C13 C14 C15 C16 C17 C18 C19"
 for d in "$@"; do
-  prop=$(basename "$(dirname "$d")" | sed 's/-out//'); n=$(basename "$d")
-  log=/tmp/mut/results/$prop-$n.log
+  prop=$(basename "$(dirname "$d")" | sed 's/-out.*//'); n=$(basename "$d")
+  log=$RES/$prop-$n.log
   {
     echo "== $prop/$n"
     cd "$L/repo" && git checkout -q -- . && rm -f tests/mutant_demo.rs
